@@ -62,7 +62,15 @@ def _weights_for(spec, x_sorted, w_array_sorted):
     return w_array_sorted
 
 
-def ref_alpha_beta(delta, xs, w, reading="full"):
+def _L(p, delta):
+    """-ln(1 - p^(1/delta)) of the documented relation, evaluated without cancellation at either end
+    (y = p^(1/delta) below 1e-16: 1 - y rounds to 1; y next to 1 for a huge delta: 1 - y loses all digits)."""
+    with np.errstate(all="ignore"):
+        t = np.log(p) / delta  # ln y  (< 0)
+        return np.where(t > -np.log(2.0), -np.log(-np.expm1(t)), -np.log1p(-np.exp(t)))
+
+
+def ref_alpha_beta(delta, xs, w, reading="full", noise=None):
     n = xs.size
     pos = xs > 0
     if reading == "full":
@@ -72,7 +80,12 @@ def ref_alpha_beta(delta, xs, w, reading="full"):
         p = (np.arange(1, k + 1) - 0.5) / k
     X = np.log10(xs[pos])
     with np.errstate(all="ignore"):
-        P = np.log10(-np.log(1 - p ** (1 / delta)))
+        L = _L(p, delta)
+        if noise is not None:
+            # what the relation evaluated AS WRITTEN in doubles cannot resolve: 1 - y carries an absolute rounding error
+            # of a few 1e-16, i.e. L moves by that over (1 - y) = exp(-L)
+            L = L + noise[: L.size] * 4e-16 * np.exp(L)
+        P = np.log10(L)
     ww = w[pos]
     ok = np.isfinite(P) & np.isfinite(X) & (ww > 0)
     sw = np.sqrt(ww[ok] / np.max(ww[ok]))
@@ -82,14 +95,42 @@ def ref_alpha_beta(delta, xs, w, reading="full"):
     return 10**a, 1 / b
 
 
+def conditioning(delta, xs, w, reading, ra, rb):
+    """Relative change of the reference (alpha, beta) under the rounding the documented relation has in doubles."""
+    rng = np.random.default_rng(12345)
+    da = db = 0.0
+    for _ in range(8):
+        try:
+            a2, b2 = ref_alpha_beta(delta, xs, w, reading, noise=rng.uniform(-1, 1, xs.size))
+        except Exception:  # noqa: BLE001
+            return np.inf, np.inf
+        if not (np.isfinite(a2) and np.isfinite(b2)):
+            return np.inf, np.inf
+        da = max(da, abs(a2 - ra) / max(abs(ra), 1e-300))
+        db = max(db, abs(b2 - rb) / max(abs(rb), 1e-300))
+    return da, db
+
+
 def ref_error(delta, xs, w):
     alpha, beta = ref_alpha_beta(delta, xs, w)
     n = xs.size
     pos = xs > 0
     p = ((np.arange(1, n + 1) - 0.5) / n)[pos]
     with np.errstate(all="ignore"):
-        xh = alpha * (-np.log(1 - p ** (1 / delta))) ** (1 / beta)
+        xh = alpha * _L(p, delta) ** (1 / beta)
     return float(np.sum(w[pos] * (xs[pos] - xh) ** 2))
+
+
+def at_underflow_edge(x, delta):
+    """The returned delta sits where p_min^(1/delta') underflows for a delta' 5 % smaller: the optimiser ran towards
+    delta -> 0 until the relation had log10(0) in it (mechanism of the known finding ew-lsq-free-delta-at-underflow-edge)."""
+    xs = np.sort(np.asarray(x, float))
+    pos = xs > 0
+    if not np.any(pos):
+        return False
+    pmin = ((np.arange(1, xs.size + 1) - 0.5) / xs.size)[pos][0]
+    with np.errstate(all="ignore"):
+        return bool(np.exp(np.log(pmin) / (delta / 1.05)) < 2.3e-308)
 
 
 def _close(a, b, rel):
@@ -139,6 +180,14 @@ def _post_fit(call):
         refs[reading] = (float(ra), float(rb))
         if _close(got[0], ra, 1e-7) and _close(got[1], rb, 1e-7):
             okk = True
+        elif not okk:
+            # ill-conditioned delta (1 - p^(1/delta) cancels): judged within the conditioning of the relation in doubles
+            da, db = conditioning(delta, xs, w, reading, ra, rb)
+            if np.isfinite(da) and _close(got[0], ra, 1e-7 + 4 * da) and _close(got[1], rb, 1e-7 + 4 * db):
+                okk = True
+                c.count("c13.regression.judged-within-conditioning")
+            elif not np.isfinite(da):
+                c.count("c13.regression.conditioning-unbounded")
     mech = None
     if not okk:
         mech = _classify(xs, w, delta, got, warr, data, weights)
@@ -150,7 +199,21 @@ def _post_fit(call):
             e1 = ref_error(delta * 1.01, xs, w / np.sum(w))
             e2 = ref_error(delta / 1.01, xs, w / np.sum(w))
             slack = 2e-4 + 1e-7 * abs(e0)
-            c.check("c13.delta-local-min", e0 <= min(e1, e2) + slack, "EW least squares: free delta is not a local minimiser of the weighted quantile error", e_at=e0, e_up=e1, e_down=e2, **info)
+            okmin = e0 <= min(e1, e2) + slack
+            mech2 = None
+            if not okmin:
+                # known finding: the optimiser ran into the region where p_min^(1/delta) underflows (the relation has
+                # log10(0) there in doubles) and stopped at its edge, the error still decreasing towards smaller delta
+                if at_underflow_edge(xs, delta) and not (e1 + slack < e0):
+                    mech2 = "ew-lsq-free-delta-at-underflow-edge"
+                elif delta > 1e6:
+                    # known finding: the error keeps decreasing towards delta -> infinity (log-Gumbel limit, convergence
+                    # like 1/ln delta): the simplex search doubles delta until its iteration limit and returns that
+                    wn = w / np.sum(w)
+                    e10, e1000 = ref_error(delta * 10, xs, wn), ref_error(delta * 1000, xs, wn)
+                    if e2 >= e0 >= e1 >= e10 >= e1000:
+                        mech2 = "ew-lsq-free-delta-runs-to-infinity"
+            c.check("c13.delta-local-min", okmin, "EW least squares: free delta is not a local minimiser of the weighted quantile error", mech2, e_at=e0, e_up=e1, e_down=e2, **info)
         except Exception as e:  # noqa: BLE001
             c.inconcl(f"reference error function failed: {e}")
 
@@ -262,22 +325,24 @@ def run_case(case, ctx):
     if not np.all(np.isfinite(base)):
         return
     rel = 1e-9 if case["delta"] is not None else 2e-3
+    # a free delta that ran into the underflow edge (known finding) stops at an erratic place: same mechanism
+    edge = "ew-lsq-free-delta-at-underflow-edge" if (case["delta"] is None and at_underflow_edge(x, float(base[2]))) else None
     # scaling of the weights
     if wspec == "array":
         sc = fit(x, warr * case["wscale"])
-        ctx.check("c13.weight-scaling", bool(np.all(np.abs(sc - base) <= rel * np.abs(base))), "EW least squares: result changes when the weights are multiplied by a constant", base=base.tolist(), scaled=sc.tolist(), factor=case["wscale"])
+        ctx.check("c13.weight-scaling", bool(np.all(np.abs(sc - base) <= rel * np.abs(base))), "EW least squares: result changes when the weights are multiplied by a constant", edge, base=base.tolist(), scaled=sc.tolist(), factor=case["wscale"])
     if wspec is None:
         sc = fit(x, np.full(n, case["wscale"]))
-        ctx.check("c13.weight-scaling", bool(np.all(np.abs(sc - base) <= rel * np.abs(base))), "EW least squares: weights=None differs from constant weights", base=base.tolist(), scaled=sc.tolist(), factor=case["wscale"])
+        ctx.check("c13.weight-scaling", bool(np.all(np.abs(sc - base) <= rel * np.abs(base))), "EW least squares: weights=None differs from constant weights", edge, base=base.tolist(), scaled=sc.tolist(), factor=case["wscale"])
     if isinstance(wspec, str) and wspec != "array":
         expo = {"linear": 1, "quadratic": 2, "cubic": 3}[wspec]
         sc = fit(x, case["wscale"] * x**expo)
-        ctx.check("c13.weight-scaling", bool(np.all(np.abs(sc - base) <= max(rel, 1e-7) * np.abs(base))), f"EW least squares: weights='{wspec}' differs from the array c*x^{expo}", base=base.tolist(), scaled=sc.tolist(), factor=case["wscale"])
+        ctx.check("c13.weight-scaling", bool(np.all(np.abs(sc - base) <= max(rel, 1e-7) * np.abs(base))), f"EW least squares: weights='{wspec}' differs from the array c*x^{expo}", edge, base=base.tolist(), scaled=sc.tolist(), factor=case["wscale"])
     # order of the rows (weights permuted together with the data)
     perm = rng.permutation(n)
     pw = warr[perm] if wspec == "array" else w_in
     po = fit(x[perm], pw)
-    ctx.check("c13.order", bool(np.all(np.abs(po - base) <= rel * np.abs(base))), "EW least squares: result depends on the order of the data", base=base.tolist(), permuted=po.tolist(), weights=wspec)
+    ctx.check("c13.order", bool(np.all(np.abs(po - base) <= rel * np.abs(base))), "EW least squares: result depends on the order of the data", edge, base=base.tolist(), permuted=po.tolist(), weights=wspec)
     # both method names
     other = fit(x, w_in, "wlsq" if method == "lsq" else "lsq")
     ctx.check("c13.method-names", bool(np.all(other == base) or np.all(np.abs(other - base) <= 1e-12 * np.abs(base))), "EW least squares: 'lsq' and 'wlsq' give different results", base=base.tolist(), other=other.tolist())
